@@ -11,7 +11,7 @@
    The mode-selection helper is the GENERATED tt_dimscheck (Gen/GenUtils.v).
    Definitions only; proofs are in Proofs/C19Proofs.v. *)
 From Coq Require Import List ZArith Bool.
-From PV Require Import Np.NpZ Gen.GenUtils.
+From PV Require Import Np.NpZ Np.NpZ2 Gen.GenUtils Gen.GenUtils2.
 Import ListNotations.
 Local Open Scope Z_scope.
 
@@ -311,7 +311,13 @@ Definition pre_tucker_als (s : vec) (ranks : vec) (init : initk) (dimorder : opt
   | _ => false
   end.
 Definition pre_gcp_opt (s : vec) (rank : Z) (init : initk) (opt_ok : bool) : bool :=
-  (0 <? rank) && opt_ok && match init with InitRandom => true | InitK ks R => shape_eqb ks s && (R =? rank) | _ => false end.
+  (0 <? rank) && opt_ok &&
+  match init with
+  | InitRandom => true
+  | InitK ks R => shape_eqb ks s && (R =? rank)
+  | InitList ms => (zlen ms =? ndim s) && factors_fit s ms (np_full (ndim s) rank) (np_arange 0 (ndim s))
+  | _ => false
+  end.
 (* import_data: header says n modes, the shape line has k entries; data type word known *)
 Definition pre_import (type_ok : bool) (n k : Z) : bool := type_ok && (n =? k).
 Definition guard_import (type_ok : bool) (n k : Z) : res unit := chk type_ok ;; chk (k =? n).
@@ -338,12 +344,13 @@ Definition guard_tensor_collapse (s d : vec) : res unit :=
   if zprod s =? 0 then Ok tt
   else match tt_dimscheck (ndim s) None (Some d) None with Err => Err | Ok _ => Ok tt end.
 
-(* sptensor(subs, vals, shape) with subs a rectangular array: nothing is compared when subs.size == 0; otherwise the value
-   count (C19-N05 repaired), the column count and the upper bounds "max(subs)+1 <= shape" (no lower bound) *)
+(* sptensor(subs, vals, shape) with subs a rectangular array: nothing is compared when subs.size == 0 (C19-N16); otherwise the
+   value count (C19-N05 repaired), "np.all(subs >= 0)" (C19-N14 repaired), the column count and the upper bounds
+   "max(subs)+1 <= shape" *)
 Definition guard_sptensor_ctor (s : vec) (subs : list vec) (nvals : Z) : res unit :=
   let ncols := zlen (hd [] subs) in
   if (zlen subs =? 0) || (ncols =? 0) then Ok tt
-  else chk (nvals =? zlen subs) ;; chk (ncols =? ndim s) ;;
+  else chk (nvals =? zlen subs) ;; chk (forallb (forallb (fun x => 0 <=? x)) subs) ;; chk (ncols =? ndim s) ;;
        chk (forallb (fun row => forallb (fun p => fst p <? snd p) (combine row s)) subs).
 
 (* algorithm option checks in the order the code performs them *)
@@ -408,3 +415,183 @@ Definition guard_tucker_als (s : vec) (ranks : vec) (init : initk) (dimorder : o
   | InitRandom | InitNvecs => Ok tt
   | InitBogus | InitK _ _ => Err
   end.
+
+(* ======================================================================================== *)
+(* wave 3                                                                                     *)
+(* ======================================================================================== *)
+(* element-wise + / - of two matricised tensors (tenmat.__add__/__sub__/__rsub__): "self.shape == other.shape" where
+   tenmat.shape is data.shape, or () when the data holds no element; then numpy adds the two data arrays (broadcast test).
+   Operands: (tshape, rdims, cdims); the matrix is prod(tshape[rdims]) x prod(tshape[cdims]). *)
+Definition mshape (ts rd cd : vec) : vec := [zprod (pickz ts rd); zprod (pickz ts cd)].
+Definition tm_shape (m : vec) : vec := if zprod m =? 0 then [] else m.
+Definition pre_tenmat_binop (ts rd cd us urd ucd : vec) : bool := shape_eqb (mshape ts rd cd) (mshape us urd ucd).
+Definition guard_tenmat_binop (ts rd cd us urd ucd : vec) : res unit :=
+  let m1 := mshape ts rd cd in let m2 := mshape us urd ucd in
+  chk (shape_eqb (tm_shape m1) (tm_shape m2)) ;; chk (np_broadcast_ok m1 m2).
+
+(* cp_als(optdims = d): "all(isin(d, arange(N))) and unique(d).size == d.size"; later the list of modes that are optimised
+   (dimorder filtered by d) is indexed with [-1]: an empty list of modes raises IndexError.  (C19-N15 repaired.) *)
+Definition pre_cp_optdims (s d : vec) : bool := modes_ok (ndim s) d && (0 <? zlen d).
+Definition guard_cp_optdims (s d : vec) : res unit :=
+  let N := ndim s in
+  chk (np_all (np_isin d (np_arange 0 N)) && (zlen (np_unique d) =? zlen d)) ;;
+  chk (0 <? zlen (filter (fun x => zmem x d) (np_arange 0 N))).
+
+(* "sorted concatenation of rdims and cdims must be range(ndims)" *)
+Definition chk_partition (N : Z) (r c : vec) : res unit :=
+  chk ((zlen (r ++ c) =? N) && shape_eqb (np_sort (r ++ c)) (np_arange 0 N)).
+
+(* sptensor.to_sptenmat(rdims, cdims): the GENERATED gather_wrap_dims, then the partition test; nothing later can fail *)
+Definition guard_to_sptenmat (s rd cd : vec) : res unit :=
+  match gather_wrap_dims (ndim s) (Some rd) (Some cd) None with
+  | Err => Err
+  | Ok (r, c) => chk_partition (ndim s) r c
+  end.
+
+(* tenmat(data, rdims, cdims, tshape) with a non-empty matrix `data` of shape d: element counts, the generated
+   gather_wrap_dims, tshape[rdims] / tshape[cdims] (numpy indexing: wraps negatives, IndexError beyond), the product test,
+   the partition test *)
+Definition guard_tenmat_ctor (d : shp2) (rd cd ts : vec) : res unit :=
+  chk (rows d * cols d =? zprod ts) ;;
+  match gather_wrap_dims (ndim ts) (Some rd) (Some cd) None with
+  | Err => Err
+  | Ok (r, c) =>
+      chk (forallb (np_idx_ok (ndim ts)) r && forallb (np_idx_ok (ndim ts)) c) ;;
+      chk (zprod (map (szw ts) r) * zprod (map (szw ts) c) =? rows d * cols d) ;;
+      chk_partition (ndim ts) r c
+  end.
+
+(* tensor.to_tenmat(rdims, cdims): "sum(isin(rdims, alldims)) == len(rdims)" for both lists, gather_wrap_dims, the partition
+   test, then the tenmat constructor on the (prod rows) x (prod cols) data *)
+Definition guard_to_tenmat (s rd cd : vec) : res unit :=
+  let N := ndim s in
+  chk (forallb (in_range N) rd) ;; chk (forallb (in_range N) cd) ;;
+  match gather_wrap_dims N (Some rd) (Some cd) None with
+  | Err => Err
+  | Ok (r, c) => chk_partition N r c ;; guard_tenmat_ctor (zprod (pickz s r), zprod (pickz s c)) r c s
+  end.
+
+(* tensor.nvecs(n, r): to_tenmat(rdims = [n]) — the column modes are the generated helper's complement *)
+Definition guard_nvecs (s : vec) (n : Z) : res unit :=
+  let N := ndim s in
+  chk (forallb (in_range N) [n]) ;;
+  match gather_wrap_dims N (Some [n]) None None with
+  | Err => Err
+  | Ok (r, c) => chk_partition N r c ;; guard_tenmat_ctor (zprod (pickz s r), zprod (pickz s c)) r c s
+  end.
+
+(* tensor.scale(factor, dims): the generated tt_dimscheck sorts the modes; the factor's shape is compared with the sizes of the
+   SORTED modes *)
+Definition guard_scale (s f d : vec) : res unit :=
+  match tt_dimscheck (ndim s) None (Some d) None with
+  | Err => Err
+  | Ok (sd, _) => chk (shape_eqb f (pickz s sd))
+  end.
+
+(* tensor.ttt(other, selfdims, otherdims): shape[selfdims] / other.shape[otherdims] (numpy indexing), tuple comparison,
+   self.to_tenmat(cdims = selfdims), other.to_tenmat(rdims = otherdims), matrix product *)
+Definition guard_to_tenmat_opt (s : vec) (rd cd : option vec) : res unit :=
+  let N := ndim s in
+  chk (match rd with Some r => forallb (in_range N) r | None => true end) ;;
+  chk (match cd with Some c => forallb (in_range N) c | None => true end) ;;
+  match gather_wrap_dims N rd cd None with
+  | Err => Err
+  | Ok (r, c) => chk_partition N r c ;; guard_tenmat_ctor (zprod (pickz s r), zprod (pickz s c)) r c s
+  end.
+Definition guard_ttt (s u sd od : vec) : res unit :=
+  chk (forallb (np_idx_ok (ndim s)) sd) ;; chk (forallb (np_idx_ok (ndim u)) od) ;;
+  chk (shape_eqb (map (szw s) sd) (map (szw u) od)) ;;
+  guard_to_tenmat_opt s None (Some sd) ;; guard_to_tenmat_opt u (Some od) None ;;
+  chk (zprod (pickz s sd) =? zprod (pickz u od)).
+
+(* T[k] / T[k] = v with one linear index k >= 0: numpy's bound test / "a tensor X cannot be resized" *)
+Definition guard_linear_index (s : vec) (k : Z) : res unit := chk (negb (zprod s <=? k)) ;; chk (np_idx_ok (zprod s) k).
+
+(* ktensor.mttkrp(U, n): the helper; R = U[1 or 0].shape[1] (IndexError on a 1-way tensor); the weight matrix W (rank x R) is
+   multiplied element-wise by factor_matrices[i].T @ U[i] for every i <> n: rows of U[i] must equal shape[i]; the column
+   counts are only required to BROADCAST (a single column is stretched): C19-N09 *)
+Fixpoint kw_chain (s : vec) (n : Z) (wc : Z) (l : list (Z * shp2)) : res unit :=
+  match l with
+  | [] => Ok tt
+  | (i, u) :: r =>
+      if i =? n then kw_chain s n wc r
+      else if negb (rows u =? sz s i) then Err
+      else if negb ((wc =? cols u) || (wc =? 1) || (cols u =? 1)) then Err
+      else kw_chain s n (if wc =? 1 then cols u else wc) r
+  end.
+Definition guard_ktensor_mttkrp (s : vec) (us : list shp2) (n : Z) : res unit :=
+  let N := ndim s in
+  guard_mttkrp_factors N us n ;;
+  chk (np_idx_ok (zlen us) (if n =? 0 then 1 else 0)) ;;
+  kw_chain s n (mttkrp_R us n) (combine (np_arange 0 N) us).
+
+(* sumtensor.mttkrp on parts [tensor, ktensor]: the parts are asked in turn *)
+Definition guard_sumtensor_mttkrp (s : vec) (us : list shp2) (n : Z) : res unit :=
+  guard_tensor_mttkrp s us n ;; guard_ktensor_mttkrp s us n.
+
+(* ttensor.ttm(matrices, dims | exclude_dims, transpose): the generated tt_dimscheck, then the size loop
+   "matrix[vidx[i]].shape[size_idx] != self.shape[dim]" — the checks of ttv on the in-dimensions of the matrices; the products
+   with the factor matrices cannot fail afterwards.  An empty selection of modes is answered (the tensor itself). *)
+Definition pre_ttensor_ttm (s : vec) (ms : list shp2) (dims excl : option vec) (tr : bool) : bool :=
+  pre_ttv s (map (mat_in tr) ms) dims excl.
+Definition guard_ttensor_ttm (s : vec) (ms : list shp2) (dims excl : option vec) (tr : bool) : res unit :=
+  guard_ttv_checks s (map (mat_in tr) ms) dims excl.
+
+(* sptensor.ttm(list of matrices, ...): tt_dimscheck, matrices[vidx[0]] (IndexError when no mode is selected), then one
+   single-matrix ttm per selected mode, each comparing "self.shape[dim] != matrix.shape[1]" on the running result (which may
+   have become dense: tensor.ttm performs the same comparison): the chain of tensor.ttm *)
+Definition guard_sptensor_ttm := guard_tensor_ttm.
+
+(* sptensor.mttkrp(U, n): the helper; R = U[1 or 0].shape[1]; for r < R: column r of every U[i], i <> n (IndexError when
+   U[i] has fewer than R columns; further columns are never looked at: C19-N09), then ttv with exclude_dims = n on vectors
+   of lengths rows(U[i]) (an empty vector in position n) *)
+Definition guard_sptensor_mttkrp (s : vec) (us : list shp2) (n : Z) : res unit :=
+  let N := ndim s in let R := mttkrp_R us n in
+  let ius := combine (np_arange 0 N) us in
+  guard_mttkrp_factors N us n ;;
+  chk (np_idx_ok (zlen us) (if n =? 0 then 1 else 0)) ;;
+  if R <=? 0 then Ok tt
+  else chk (forallb (fun iu => (fst iu =? n) || (R <=? cols (snd iu))) ius) ;;
+       guard_ttv_checks s (map (fun iu => if fst iu =? n then 0 else rows (snd iu)) ius) None (Some [n]).
+
+(* sptensor.extract(subs) with subs a rectangular p x k array: "(subs < 0) | (subs >= shape)" is evaluated with numpy
+   broadcasting of (p, k) against (N,): k = N, or a single column (compared with every mode), or a 1-way tensor (every column
+   compared with the one size); any other k raises.  Nothing after the range test rejects (C19-N17). *)
+Definition row_in_range_bcast (s row : vec) : bool :=
+  if zlen row =? ndim s then forallb (fun p => in_range (snd p) (fst p)) (combine row s)
+  else if zlen row =? 1 then forallb (fun d => in_range d (sz row 0)) s
+  else forallb (in_range (sz s 0)) row.
+Definition guard_sptensor_extract (s : vec) (subs : list vec) : res unit :=
+  let k := zlen (hd [] subs) in
+  chk ((k =? ndim s) || (k =? 1) || (ndim s =? 1)) ;; chk (forallb (row_in_range_bcast s) subs).
+
+
+(* sptensor.from_aggregator(subs, vals, shape) with subs a rectangular p x k array and vals nvals x 1: tt_subscheck (no
+   negative subscript), the value count only "if subs.size > 1", tt_sizecheck (positive sizes), "subs.shape[1] > len(shape)",
+   per mode j "max(subs[:, j]) >= shape[j]" (IndexError when subs has fewer than j+1 columns), then accumarray (values and
+   subscripts must have the same length).  A subscript array without elements skips everything but the size check (C19-N18). *)
+Definition guard_from_aggregator (s : vec) (subs : list vec) (nvals : Z) : res unit :=
+  let p := zlen subs in let k := zlen (hd [] subs) in let N := ndim s in
+  if p * k =? 0 then chk (all_pos s)
+  else chk (forallb (forallb (fun x => 0 <=? x)) subs) ;;
+       (if 1 <? p * k then chk (nvals =? p) else Ok tt) ;;
+       chk (all_pos s) ;; chk (k <=? N) ;;
+       chk_all (fun j => chk (j <? k) ;; chk (forallb (fun row => znth 0 row j <? sz s j) subs)) (np_arange 0 N) ;;
+       chk (nvals =? p).
+
+
+(* gcp_opt(data, rank, objective, optimizer, init): the initial guess first — a Kruskal tensor is compared with the shape of
+   the data and the rank; "random" draws (shape[n], rank) matrices (numpy refuses a negative size; with rank 0 the scaling by
+   data.norm() / M0.norm() divides by zero, and a Kruskal guess without components cannot be normalised); a LIST of matrices
+   is only turned into a Kruskal tensor (equal column counts) — neither rank nor shape are compared (C19-N19); any other
+   value is refused.  Then the optimizer's type.  A list guess meets the data in the first function evaluation, where numpy
+   broadcasts the two shapes. *)
+Definition guard_gcp_opt (s : vec) (rank : Z) (init : initk) (opt_ok : bool) : res unit :=
+  match init with
+  | InitList ms => guard_ktensor_ctor ms None
+  | InitK ks R => chk (shape_eqb ks s && (R =? rank)) ;; chk (0 <? rank)
+  | InitRandom => chk (0 <? rank)
+  | InitNvecs | InitBogus => Err
+  end ;;
+  chk opt_ok ;;
+  match init with InitList ms => chk (np_broadcast_ok (map rows ms) s) | _ => Ok tt end.
